@@ -19,6 +19,7 @@
 #include <arpa/inet.h>
 #include <fcntl.h>
 #include <fstream>
+#include <functional>
 #include <linux/sockios.h>
 #include <map>
 #include <memory>
@@ -186,6 +187,40 @@ struct Client {
         int m = 0; if (!eof && ioctl(fd, FIONREAD, &m) == 0 && m) return false;
         return true;
     }
+    // the server application has read every byte sent so far (or has dropped the connection)
+    bool consumed() {
+        find_server_side();
+        if (sfd < 0) return true;
+        tcp_info si{}; socklen_t l = sizeof si;
+        if (getsockopt(sfd, IPPROTO_TCP, TCP_INFO, &si, &l) != 0) return false;
+        if (si.tcpi_bytes_received < sent_total) return false;
+        int n = 0; if (ioctl(sfd, FIONREAD, &n) == 0 && n) return false;
+        return true;
+    }
+    void send_raw(const std::string &s) {      // from inside a loop task: never pumps
+        if (fd < 0) return;
+        ssize_t n = ::send(fd, s.data(), s.size(), MSG_NOSIGNAL);
+        if (n > 0) sent_total += n;
+    }
+    // "More bytes arrive after the session has ended but before the connection is closed": `last` is sent, then the real
+    // loop runs pass by pass (kForever) with an in-loop task that, in the very pass in which the server has read `last`
+    // (+ `delay` passes), writes `late` on the client socket - i.e. before any task deferred by that input (session
+    // teardown, deferred disconnect) of a LATER pass has run.  kOnce cannot do this: it drains all deferred generations.
+    void send_with_late(const std::string &last, const std::string &late, int delay) {
+        send_all(last);
+        int phase = 0, wait = 0, after = 0; double t0 = now_s(); long it = 0;
+        std::function<void()> task = [&] {
+            drain();
+            if (phase == 0 && consumed()) { phase = 1; wait = delay; }
+            if (phase == 1) { if (wait-- <= 0) { send_raw(late); phase = 2; } }
+            else if (phase == 2) { if (++after >= 6 && (consumed() || eof)) { g_loop->exitLoop(); return; } }
+            if ((++it & 1023) == 0 && now_s() - t0 > 20) harness_fail("late segment: loop did not get quiet");
+            g_loop->runNext(task, "c13 late driver");
+        };
+        g_loop->runNext(task, "c13 late driver");
+        g_loop->runLoop(event::Loop::Mode::kForever);
+        drain();
+    }
     void settle(int stable_need = 3) {
         int stable = 0; double t0 = now_s();
         for (long it = 0;; ++it) {
@@ -298,8 +333,15 @@ int main(int argc, char **argv) {
                     emit(ev.dump());
                     break;
                 }
+                size_t nseg = ch["segs"].size(), iseg = 0;
+                int late = ch.value("late", -1);        // >= 0: the last segment arrives `late` passes after the one before it was read
                 for (auto &sg : ch["segs"]) {
-                    std::string s = bytes_of(sg); nbytes += s.size();
+                    std::string s = bytes_of(sg); nbytes += s.size(); ++iseg;
+                    if (late >= 0 && nseg >= 2 && iseg == nseg - 1) {
+                        std::string l = bytes_of(ch["segs"][nseg - 1]); nbytes += l.size();
+                        c.send_with_late(s, l, late);
+                        break;
+                    }
                     c.send_all(s);
                     double t0 = now_s();
                     for (long it = 0; !c.quiet(); ++it) { pump(); c.drain(); if ((it & 1023) == 1023 && now_s() - t0 > 20) harness_fail("segment not consumed"); }
